@@ -73,6 +73,11 @@ pub trait Vut: Sized {
     /// stored-only scans through the file-IO and the mmap back-end
     fn v_stored_scans(&self, a: usize, b: usize) -> (Vec<u64>, Vec<u64>);
     fn v_dirty(&self) -> bool;
+    /// C20: every read path of a read-only clone and both stored-only scan back-ends, in ANY state
+    /// (values are not judged here, only the bytes touched)
+    fn v_clone_reads(&self, seed: u64, len: usize);
+    /// (start, current length) of the vector's regions
+    fn v_region_extent(&self) -> (usize, usize);
     fn v_update(&mut self, _i: usize, _v: Self::T) -> vecdb::Result<()> { Err(Error::ExpectVecToHaveIndex) }
     fn v_delete(&mut self, _i: usize) {}
     fn v_take(&mut self, _i: usize) -> vecdb::Result<Option<Self::T>> { Ok(None) }
@@ -112,6 +117,29 @@ macro_rules! common_impl {
             (io, mm)
         }
         fn v_dirty(&self) -> bool { self.is_dirty() }
+        fn v_clone_reads(&self, seed: u64, len: usize) {
+            let ro = vecdb::StoredVec::read_only_clone(self);
+            let stored = self.stored_len();
+            let pp = 16 * 1024 / <Self::T as Val>::SZ;
+            let mut sink: Vec<String> = vec![];
+            // the whole vector, then ranges and points around the interesting boundaries
+            crate::read_paths::range_paths::<Self::T, _>(&ro, "clone", 0, len.max(stored) + 1, &[], &mut sink);
+            let _ = catch_unwind(AssertUnwindSafe(|| self.v_stored_scans(0, len.max(stored) + 1)));
+            for k in 0..6u64 {
+                let a = crate::read_paths::pick(seed, 2 * k, len, stored, pp);
+                let b = crate::read_paths::pick(seed, 2 * k + 1, len, stored, pp);
+                crate::read_paths::range_paths::<Self::T, _>(&ro, "clone", a, b, &[], &mut sink);
+                let _ = catch_unwind(AssertUnwindSafe(|| self.v_stored_scans(a, b)));
+                let i = crate::read_paths::pick(seed, 100 + k, len, stored, pp);
+                crate::read_paths::point_paths::<Self::T, _>(&ro, "clone", i, None, false, &mut sink);
+            }
+            let _ = catch_unwind(AssertUnwindSafe(|| {
+                let idx: Vec<usize> = vec![0, stored.saturating_sub(1), stored, len.saturating_sub(1), len];
+                let mut idx = idx; idx.sort();
+                ro.read_sorted_at(&idx).len()
+            }));
+        }
+        fn v_region_extent(&self) -> (usize, usize) { let m = self.region().meta(); (m.start(), m.len()) }
         fn v_region_names(&self) -> Vec<String> { self.region_names() }
         fn v_data_len(&self) -> usize { self.region().meta().len() }
     };
@@ -363,6 +391,7 @@ impl<V: Vut> Engine<V> {
             return (line.to_string(), line.to_string());
         }
         if self.vec.is_none() { return (line.to_string(), "skipped".into()); }
+        crate::access::begin();
         let before = self.last_obs.clone();
         let spi_before = self.vec.as_ref().map(|v| v.v_stored() / Self::per_page()).unwrap_or(0);
         let num = |i: usize| ws.get(i).and_then(|s| s.parse::<u64>().ok()).unwrap_or(0);
@@ -511,6 +540,7 @@ impl<V: Vut> Engine<V> {
                             Ok(format!("ok:{h}"))
                         }
                     }
+                    "clonereads" => { vec.v_clone_reads(num(1), r.items.len()); Ok("ok".into()) }
                     _ => Ok("bad-op".into()),
                 }
             }))
@@ -582,7 +612,21 @@ impl<V: Vut> Engine<V> {
                 _ => format!("{} {} {csw}", ws[0], ws[1]),
             };
         }
-        let obs = self.observe(&out);
+        let mut obs = self.observe(&out);
+        // C20: every access recorded during this request (and the observation above) against its region
+        if let (Some(vec), Some(db)) = (self.vec.as_ref(), self.db.as_ref()) {
+            let (ds, dl) = vec.v_region_extent();
+            let mut regs = vec![("data", ds, dl)];
+            if let Some(pr) = vec.v_region_names().get(1).and_then(|n| db.get_region(n)) {
+                let m = pr.meta();
+                regs.push(("pages", m.start(), m.len()));
+            }
+            let (v, _n) = crate::access::violations(&regs, db.file_len(), matches!(ws[0], "reads" | "clonereads"));
+            if !v.is_empty() {
+                obs = obs.replace("| X 0", "| X 1");
+                for m in v.iter().take(2) { fails.push(format!("C20: `{}`: {m}", ws[0])); }
+            }
+        }
         // ---- oracles -------------------------------------------------------------------------
         if let Some(vec) = self.vec.as_ref() {
             if out == "panic" { fails.push("panic".into()); }
@@ -635,6 +679,7 @@ pub struct Gen {
     pub since_commit: bool,
     pub pending_fault: bool,
     pub reads: bool,
+    pub access: bool,
 }
 
 impl Gen {
@@ -677,6 +722,10 @@ impl Gen {
         let stored = eng.vec.as_ref().map(|v| v.v_stored()).unwrap_or(0);
         let pp = 16 * 1024 / self.sz;
         let r = &mut self.rng;
+        let expanded = eng.vec.as_ref().map(|v| v.v_stored() > v.v_real()).unwrap_or(false);
+        if self.access && !self.pending_fault && (r.chance(1, 6) || (expanded && r.chance(1, 2))) {
+            return format!("clonereads {}", r.below(1 << 40));
+        }
         if self.reads && len > 0 && !self.pending_fault && r.chance(1, 5) {
             return format!("reads {}", r.below(1 << 40));
         }
@@ -808,7 +857,7 @@ fn run_format<V: Vut>(args: &Args, fmt: &str, cases: &[u64]) -> (Vec<String>, Ve
     let mut obs = vec![];
     let mut eng = Engine::<V>::new(&tmp);
     for &case_no in cases {
-        let mut g = Gen { rng: Rng::new(seed.wrapping_mul(1_000_003).wrapping_add(case_no).wrapping_mul(31)), mode: mode.clone(), raw: V::RAW, sz: V::T::SZ, next_stamp: 1, since_commit: true, pending_fault: false, reads: args.flag("--reads") };
+        let mut g = Gen { rng: Rng::new(seed.wrapping_mul(1_000_003).wrapping_add(case_no).wrapping_mul(31)), mode: mode.clone(), raw: V::RAW, sz: V::T::SZ, next_stamp: 1, since_commit: true, pending_fault: false, reads: args.flag("--reads"), access: args.flag("--access") };
         let keep = if mode == "plain" || mode == "refusals" { 0 } else { *g.rng.pick(&[1u64, 2, 3, 3, 10]) };
         let line = format!("case {case_no} kind={} sz={} keep={keep} fmt={fmt} forced={}", if V::RAW { "raw" } else { "comp" }, V::T::SZ, g.rng.below(2));
         let (l, o) = eng.exec(&line);
@@ -876,6 +925,7 @@ fn fmt_of(case_line: &str) -> String {
 /// `harness vec gen|run …`
 pub fn main(args: &Args) -> i32 {
     quiet_panics();
+    if args.flag("--access") { crate::access::install(); }
     let tmp = std::path::PathBuf::from(args.get("--tmp").unwrap_or("/verif/.cache/tmp"));
     let mode = args.0.get(1).map(|s| s.as_str()).unwrap_or("");
     match mode {
